@@ -2187,3 +2187,119 @@ Proof.
   - rewrite E3, E2', Edels. rewrite <- !app_assoc. reflexivity.
   - rewrite !evs_app, !fold_left_app. exact R3.
 Qed.
+
+(** ** one step of the model *)
+Theorem wstep_E : forall st m t st' ev,
+  AllInv st -> SpInv st -> BRel st (m14_b m) -> ERel ENone st m -> wstep st t = (st', ev) ->
+  (forall q, In (ECmd (CPNew q)) ev -> 0 <= q) ->
+  ERel ENone st' (fold_left m14r_step (evs t ev) m).
+Proof.
+  intros st m t st' ev A Sp B R H Hq.
+  destruct A as [[I [P Wf]] W Sl L C Q X Y U S].
+  unfold wstep in H.
+  destruct (enabled st t) eqn:En; cbn [negb] in H;
+    [|inversion H; subst; eapply e_msame; [exact R|apply m14r_plain_fold; intros e [<-|[]]; exact Logic.I]].
+  assert (Ht : (t < nthr st)%nat).
+  { unfold enabled in En. apply andb_true_iff in En. destruct En as [En _]. apply Nat.ltb_lt in En. exact En. }
+  assert (It : CInv (core (tick st t))) by (eapply CInv_ceq; [|exact I]; unfold tick; same_core).
+  assert (Pt : pristine (tick st t)) by (unfold tick; prist st t).
+  assert (Wt : wfi (tick st t)) by (eapply wfi_eq; [| | |exact Wf]; reflexivity).
+  assert (Qt : PqInv (tick st t)) by (apply (pq_same st); auto; try reflexivity; intro u; unfold tick; repeat split; thr_simpl).
+  assert (Xt : XInv (tick st t)) by (apply (x_same st); auto; unfold tick; xs).
+  assert (Yt : YInv (tick st t)).
+  { intro u. unfold tick. cbn -[Nat.eqb]. unfold updN, th. destruct (Nat.eqb_spec u t); subst; cbn; apply Y. }
+  assert (Spt : SpInv (tick st t)).
+  { intros u c. unfold tick. cbn -[Nat.eqb]. unfold updN, th. destruct (Nat.eqb_spec u t); subst; cbn; apply Sp. }
+  assert (Slt : SlInv (tick st t)) by (unfold tick; sl_irr st).
+  assert (Bt : BRel (tick st t) (m14_b m)) by (apply (br_same st); auto; intro u; unfold tick; split; thr_simpl).
+  assert (Rt : ERel ENone (tick st t) m).
+  { apply (e_steq _ st); auto. intro u. unfold tick. repeat split; thr_simpl. }
+  assert (Htt : (t < nthr (tick st t))%nat) by exact Ht.
+  set (s0 := tick st t) in *. clearbody s0. clear En.
+  destruct (tstarted (th s0 t)) eqn:Es0; cbn [negb] in H.
+  - destruct (tcont (th s0 t)) as [|i r] eqn:Ec.
+    + destruct (tscript (th s0 t)) as [|c0 cs] eqn:Es;
+        [inversion H; subst; eapply e_msame; [exact R|apply m14r_plain_fold; intros e [<-|[]]; exact Logic.I]|].
+      match type of H with context [begin_cmd ?S0 t ?cc] =>
+        destruct (begin_cmd S0 t cc) as [[st2 ev0] done] eqn:Eb; set (s1 := S0) in * end.
+      assert (Hcur0 : tcur (thr s0 t) = None).
+      { destruct (tcur (thr s0 t)) eqn:E; auto. exfalso. apply (Yt t); [rewrite E; discriminate|exact Ec]. }
+      assert (I1 : CInv (core s1)) by (eapply CInv_ceq; [|exact It]; unfold s1; same_core).
+      assert (P1 : pristine s1) by (unfold s1; prist s0 t).
+      assert (W1 : wfi s1) by (eapply wfi_eq; [| | |exact Wt]; reflexivity).
+      assert (Hc1 : tcont (thr s1 t) = []) by (unfold s1; thr_simpl; exact Ec).
+      assert (Hcur1 : tcur (thr s1 t) = Some c0) by (unfold s1; thr_simpl).
+      assert (Sl1 : SlInv s1) by (unfold s1; sl_irr s0).
+      assert (Hcur1' : tcur (thr s1 t) <> None) by (rewrite Hcur1; discriminate).
+      assert (Q1 : PqInv s1).
+      { unfold th in Ec, Es. apply (pq_idle s0 s1 t [] Qt Ec); try reflexivity.
+        - exact Hc1.
+        - unfold s1. thr_simpl.
+        - unfold s1. thr_simpl.
+        - unfold s1. cbn -[Nat.eqb]. unfold updN, th. rewrite Nat.eqb_refl. cbn. intros _ H0 _.
+          apply (pk s0 Qt t Htt H0). right. rewrite Es. discriminate.
+        - intros j [].
+        - unfold s1. cbn -[Nat.eqb]. unfold updN, th. rewrite Nat.eqb_refl. cbn. apply (pf s0 Qt t). }
+      pose proof (begin_cmd_Pq s1 t c0 st2 ev0 done I1 P1 Q1 Hc1 Htt Hcur1' Eb) as Q2.
+      destruct (begin_cmd_inv s1 t c0 st2 ev0 done I1 P1 W1 Hc1 Htt Eb) as [I2 _].
+      pose proof (begin_cmd_Sl s1 t c0 st2 ev0 done I1 P1 W1 Sl1 Hc1 Htt Eb) as Sl2.
+      pose proof (begin_B s0 (m14_b m) t c0 cs st2 ev0 done Bt Pt Htt Hcur0 Ec Eb) as B2.
+      destruct (begin_cmd_sum s1 t c0 st2 ev0 done P1 Htt Eb) as [_ [Ht2 [Ho2 [Hn _]]]].
+      assert (Ht2' : (t < nthr st2)%nat) by (change (nthr s1) with (nthr s0) in Hn; destruct Hn as [Hn|[Hn _]]; lia).
+      destruct (settle_B_events _ _ _ _ _ _ H) as [tail Et].
+      assert (Hok : cmd_ok c0).
+      { destruct c0; try exact Logic.I. cbn. apply Hq. rewrite Et. left. reflexivity. }
+      unfold th in Ec, Es.
+      pose proof (begin_E s0 m t c0 cs st2 ev0 done It Pt Wt Slt Qt Xt Rt Htt Ec Es Hok Eb) as R2.
+      assert (X2 : XInv st2).
+      { assert (Hs1 : tstarted (thr s1 t) = true) by (unfold s1; thr_simpl; exact Es0).
+        assert (X1 : XInv s1).
+        { constructor.
+          - intros u. unfold s1. cbn -[Nat.eqb]. unfold updN, th. destruct (Nat.eqb_spec u t); subst; cbn; [intro E; discriminate E|apply (x_idle s0 Xt u)].
+          - unfold s1. cbn -[Nat.eqb]. unfold updN, th. destruct (Nat.eqb_spec main t); subst; cbn; apply (x_main s0 Xt).
+          - intros u. unfold s1. cbn -[Nat.eqb]. unfold updN, th. destruct (Nat.eqb_spec u t); subst; cbn; [unfold th in Es0; rewrite Es0; intro E; discriminate E|apply (x_fresh s0 Xt u)]. }
+        exact (begin_cmd_X s1 t c0 st2 ev0 done X1 P1 Htt Hcur1' Hs1 Eb). }
+      destruct (settle_E st2 _ t (ECmd c0 :: ev0) done st' ev (pendE t c0 done) I2 Sl2 X2 R2) as [tail' [Et' Rf]]; auto.
+      * rewrite m14r_b_fold. exact B2.
+      * apply (pf st2 Q2 t).
+      * intros ->. apply (x_main _ X2).
+      * intros ->. split; [destruct c0; reflexivity|]. intros c. rewrite Ht2, Hcur1. intro E. inversion E; subst c.
+        destruct c0; try exact Logic.I; exfalso; (apply (begin_cmd_sp _ _ _ _ _ _ Eb); [intro Z0; exact Z0|reflexivity]).
+      * intros v D. subst done. split; [rewrite (begin_cmd_done s1 t c0 st2 ev0 v Htt Eb); exact Hc1|].
+        exists c0. split; [rewrite Ht2; exact Hcur1|reflexivity].
+      * rewrite Et', evs_app, fold_left_app. exact Rf.
+    + destruct (exec_instr s0 t i r) as [st1 ev1] eqn:Ee.
+      unfold th in Ec.
+      pose proof (exec_instr_E ENone s0 m t i r st1 ev1 It Slt Qt Xt Rt Htt Ec Ee) as R1.
+      assert (I1 : CInv (core st1)) by (eapply exec_instr_inv; eauto).
+      pose proof (exec_instr_Sl s0 t i r st1 ev1 It Pt Slt Htt Ec Ee) as Sl1.
+      pose proof (exec_instr_B s0 (m14_b m) t i r st1 ev1 Bt Ec Htt Ee) as B1.
+      pose proof (exec_instr_tf _ _ _ _ _ _ Ee) as F.
+      assert (X1 : XInv st1) by (eapply (x_tframe s0 st1 t i r); eauto).
+      destruct F as [Hn1 [Hf _]].
+      destruct (settle_E st1 _ t ev1 None st' ev ENone I1 Sl1 X1 R1) as [tail' [Et' Rf]]; auto.
+      * rewrite m14r_b_fold. exact B1.
+      * lia.
+      * destruct (Hf t) as [_ [_ [F0 _]]]. rewrite F0. apply (pf s0 Qt t).
+      * intros ->. apply (x_main _ X1).
+      * intros _. split; [reflexivity|]. intros c. destruct (Hf t) as [F0 _]. rewrite F0. apply Spt.
+      * intros v D. discriminate D.
+      * rewrite Et', evs_app, fold_left_app. exact Rf.
+  - set (s1 := upd_th s0 t (set_tstarted (th s0 t) true)) in *.
+    assert (I1 : CInv (core s1)) by (eapply CInv_ceq; [|exact It]; unfold s1; same_core).
+    assert (Sl1 : SlInv s1) by (unfold s1; sl_irr s0).
+    assert (B1 : BRel s1 (m14_b m)) by (apply (br_same s0); auto; intro u; unfold s1; split; thr_simpl).
+    assert (X1 : XInv s1).
+    { destruct (x_fresh s0 Xt t Es0) as [Q1 Q2]. constructor.
+      - intros u. unfold s1. cbn -[Nat.eqb]. unfold updN, th. destruct (Nat.eqb_spec u t); subst; cbn; [unfold th in Q1; rewrite Q1; intros _ Z0; exfalso; apply Z0; reflexivity|apply (x_idle s0 Xt u)].
+      - unfold s1. cbn -[Nat.eqb]. unfold updN, th. destruct (Nat.eqb_spec main t); subst; cbn; apply (x_main s0 Xt).
+      - intros u. unfold s1. cbn -[Nat.eqb]. unfold updN, th. destruct (Nat.eqb_spec u t); subst; cbn; [intro Z0; discriminate Z0|apply (x_fresh s0 Xt u)]. }
+    assert (R1 : ERel ENone s1 (m14r_step m (t, EStart))).
+    { apply (e_msame _ _ m); [|apply m14r_plain_step; exact Logic.I]. apply (e_steq _ s0); auto. intro u. unfold s1. repeat split; thr_simpl. }
+    destruct (settle_E s1 _ t [EStart] None st' ev ENone I1 Sl1 X1 R1) as [tail' [Et' Rf]]; auto;
+      try (intros v D; discriminate D).
+    + unfold s1. cbn -[Nat.eqb]. unfold updN, th. rewrite Nat.eqb_refl. cbn. apply (pf s0 Qt t).
+    + intros ->. unfold s1. cbn -[Nat.eqb]. unfold updN, th. rewrite Nat.eqb_refl. cbn. apply (x_main _ Xt).
+    + intros _. split; [reflexivity|]. intros c. unfold s1. cbn -[Nat.eqb]. unfold updN, th. rewrite Nat.eqb_refl. cbn. apply Spt.
+    + rewrite Et'. change (evs t ([EStart] ++ tail')) with ((t, EStart) :: evs t tail'). cbn [fold_left]. exact Rf.
+Qed.
